@@ -14,8 +14,8 @@ int g_rel_invoked;  // commits whose handle release has begun
 int g_rel_returned;  // commits whose handle release has completed
 char g_writer_token;  // ghost object for the writer-section windows
 
-enum WOp { COMMIT, CANCEL, MOVE_COMMIT, UNLOCKED_NOP };
-const char* won[] = {"commit", "cancel", "move+commit"};
+enum WOp { COMMIT, CANCEL, MOVE_COMMIT, MOVE_CANCEL };
+const char* won[] = {"commit", "cancel", "move+commit", "move+cancel"};
 struct Reader {
     int snaps;
     int form;
@@ -66,7 +66,7 @@ void body(const Prog& p)
         std::vector<int> ids;
         for (auto& ops : p.writers) {
             for (int op : ops)
-                if (op != CANCEL) total_commits++;
+                if (op != CANCEL && op != MOVE_CANCEL) total_commits++;
             ids.push_back(spawn([cow, ops] {
                 for (int op : ops) {
                     stamp();
@@ -87,6 +87,11 @@ void body(const Prog& p)
                         if (op == CANCEL) {
                             h.cancel();
                             MC_CHECK(!bool(h), "cancel-not-null", "handle not null after cancel()");
+                        } else if (op == MOVE_CANCEL) {
+                            COW::handle h2(std::move(h));
+                            MC_CHECK(bool(h2) && h2->a == v + 1, "move-lost", "moved handle lost the modification");
+                            h2.cancel();  // discards the copy and frees the writer lock through the moved-to handle
+                            MC_CHECK(!bool(h2), "cancel-not-null", "handle not null after cancel()");
                         } else if (op == MOVE_COMMIT) {
                             COW::handle h2(std::move(h));
                             MC_CHECK(bool(h2) && h2->a == v + 1, "move-lost", "moved handle lost the modification");
@@ -172,7 +177,7 @@ void make_items(const Options& o, std::vector<Item>& items)
         items.push_back(it);
     };
     auto form = [&]() { return nform++ % 4; };
-    auto wseq = hx::sequences(3, 2);
+    auto wseq = hx::sequences(thorough ? 4 : 3, 2);
     // one writer (all op sequences), one reader
     for (auto& w : wseq)
         for (int snaps = 1; snaps <= 2; snaps++) add({w}, {Reader{snaps, form(), snaps == 2}}, 2, 3);
@@ -182,6 +187,8 @@ void make_items(const Options& o, std::vector<Item>& items)
             add({{a}, {b}}, {}, 2, 4);
             add({{a}, {b}}, {Reader{2, form(), true}}, 2, 3);
         }
+    add({{MOVE_CANCEL}, {COMMIT}}, {Reader{1, 0, false}}, 2, 3);
+    add({{MOVE_CANCEL, COMMIT}}, {Reader{2, 1, true}}, 2, 3);
     // two readers against a committing writer
     add({{COMMIT}}, {Reader{1, 0, false}, Reader{2, 1, true}}, 2, 3);
     add({{COMMIT, COMMIT}}, {Reader{2, 2, true}, Reader{1, 3, false}}, 2, 3);
